@@ -828,7 +828,11 @@ func extract(pkg *pkgInfo, pkgName string) []Site {
 					if waitPos != 0 && a.pos > waitPos {
 						when = "after-wait"
 					}
-					f := Fact{a.path, a.mode, "other:" + when}
+					shape := "other:" + when
+					if strings.HasPrefix(a.shape, "locked:") {
+						shape = a.shape
+					}
+					f := Fact{a.path, a.mode, shape}
 					if !seen[f] {
 						seen[f] = true
 						facts = append(facts, f)
@@ -865,9 +869,20 @@ func parentStmts(pc *bodyCtx, body *ast.BlockStmt, firstGo token.Pos, skip [][2]
 		}
 		return false
 	}
-	var walk func(list []ast.Stmt)
-	walk = func(list []ast.Stmt) {
+	var walk func(list []ast.Stmt, rg region)
+	walk = func(list []ast.Stmt, rg region) {
+		cur := rg
 		for _, s := range list {
+			if m, ok := lockCall(s, "Lock"); ok {
+				cur.lock = m
+				continue
+			}
+			if m, ok := lockCall(s, "Unlock"); ok {
+				if _, isDefer := s.(*ast.DeferStmt); !isDefer && cur.lock == m {
+					cur.lock = rg.lock
+				}
+				continue
+			}
 			if s.End() <= firstGo {
 				continue
 			}
@@ -887,31 +902,31 @@ func parentStmts(pc *bodyCtx, body *ast.BlockStmt, firstGo token.Pos, skip [][2]
 				}
 			case *ast.IfStmt:
 				if x.Init != nil {
-					walk([]ast.Stmt{x.Init})
+					walk([]ast.Stmt{x.Init}, cur)
 				}
-				pc.expr(x.Cond, region{})
-				walk(x.Body.List)
+				pc.expr(x.Cond, cur)
+				walk(x.Body.List, cur)
 				if x.Else != nil {
-					walk([]ast.Stmt{x.Else})
+					walk([]ast.Stmt{x.Else}, cur)
 				}
 				continue
 			case *ast.BlockStmt:
-				walk(x.List)
+				walk(x.List, cur)
 				continue
 			case *ast.ForStmt:
 				if x.Pos() < firstGo {
 					// the loop that contains the go statement: its header runs concurrently
-					walk(x.Body.List)
+					walk(x.Body.List, cur)
 					continue
 				}
 			}
 			if inSkip(s.Pos()) {
 				continue
 			}
-			pc.stmt(s, region{})
+			pc.stmt(s, cur)
 		}
 	}
-	walk(body.List)
+	walk(body.List, region{})
 }
 
 func namedFuncCtx(pkg *pkgInfo, callee *ast.FuncDecl) *bodyCtx {
